@@ -27,4 +27,4 @@ REQUIREMENTS FOR EACH CHANGE:
   4. demo.py must pass (exit 0) on the unchanged worktree and fail (non-zero) with the change. Verify both yourself.
   5. m1 and m2 should break the property in different ways / at different code sites if possible.
 
-When finished, revert the worktree to a clean state (`git -C /tmp/wt_{pid} checkout -- .`), and reply with a short summary of the two changes (files, what they need to manifest) and confirmation of the test-suite and demo results. Do not commit anything.""")
+When finished, revert the worktree to a clean state (`git -C /tmp/wt_{pid} checkout -- .`), and reply with a short summary of the two changes (files, what they need to manifest) and confirmation of the test-suite and demo results. Do not commit anything. Do NOT use `git stash` (the stash is shared between worktrees and other people work in sibling worktrees at the same time); to switch between the original and the changed code use `git diff > file` / `git checkout -- .` / `git apply file`.""")
